@@ -174,6 +174,7 @@ type cenv struct {
 	ocfg      hystrix.ConfigureOpener
 	ccfg      hystrix.ConfigureCloser
 	passthru  bool // a nil or zero-value circuit: nothing but Execute / Run / Go may be asked of it
+	sib       *circuit.Circuit // a sibling built from the SAME config value (same factory function values), own clock
 }
 
 func applyCfg(cfg *circuit.Config, m map[string]string) {
@@ -221,14 +222,18 @@ func newCenvWith(h map[string]string, mgr *circuit.Manager) *cenv {
 		f := hystrix.OpenerFactory(e.ocfg)
 		cfg.General.ClosedToOpenFactory = func() circuit.ClosedToOpen {
 			o := f()
-			e.hopener = o.(*hystrix.Opener)
+			if e.hopener == nil || e.sib != nil {
+				e.hopener = o.(*hystrix.Opener)
+			}
 			return o
 		}
 	case "consec":
 		f := simplelogic.ConsecutiveErrOpenerFactory(simplelogic.ConfigConsecutiveErrOpener{ErrorThreshold: getI(h, "thr", 10)})
 		cfg.General.ClosedToOpenFactory = func() circuit.ClosedToOpen {
 			o := f()
-			e.copener = o.(*simplelogic.ConsecutiveErrOpener)
+			if e.copener == nil || e.sib != nil {
+				e.copener = o.(*simplelogic.ConsecutiveErrOpener)
+			}
 			return o
 		}
 	case "scripted":
@@ -243,7 +248,9 @@ func newCenvWith(h map[string]string, mgr *circuit.Manager) *cenv {
 		f := hystrix.CloserFactory(e.ccfg)
 		cfg.General.OpenToClosedFactory = func() circuit.OpenToClosed {
 			c := f()
-			e.hcloser = c.(*hystrix.Closer)
+			if e.hcloser == nil || e.sib != nil {
+				e.hcloser = c.(*hystrix.Closer)
+			}
 			return c
 		}
 	case "scripted":
@@ -254,6 +261,12 @@ func newCenvWith(h map[string]string, mgr *circuit.Manager) *cenv {
 		e.c = mgr.MustCreateCircuit("c", cfg)
 	} else {
 		e.c = circuit.NewCircuitFromConfig("c", cfg)
+		// the sibling shares every factory VALUE with the circuit under test; whatever it does must leave that one alone
+		sibCfg := cfg
+		sibNow := int64(0)
+		sibCfg.General.TimeKeeper.Now = func() time.Time { sibNow++; return clockBase.Add(time.Duration(sibNow)) }
+		sibCfg.Metrics = circuit.MetricsCollectors{}
+		e.sib = circuit.NewCircuitFromConfig("sib", sibCfg)
 	}
 	e.base = e.c.Config() // merged with the library defaults (factories, time keeper)
 	applyCfg(&e.base, map[string]string{"fo": "0", "fc": "0", "dis": "0", "to": "0", "mc": "10", "ii": "0", "fbd": "0", "fbmc": "10"})
@@ -612,6 +625,14 @@ func (circuitSuite) Run(h map[string]string, ops []string) []string {
 				e.base.General.TimeKeeper.Now = func() time.Time { return e.clk.nowOf(gen, offs) }
 				e.callbacks = nil
 				e.c.SetConfigNotThreadSafe(e.base)
+			case "sib":
+				// k failing calls and one succeeding call on the sibling circuit (k stays below what would open it)
+				if e.sib != nil {
+					for k := int(atoi(f[1])); k > 0; k-- {
+						_ = e.sib.Run(context.Background(), func(context.Context) error { return errors.New("sibling failure") })
+					}
+					_ = e.sib.Run(context.Background(), func(context.Context) error { return nil })
+				}
 			case "tick":
 				e.clk.now += atoi(f[1])
 			case "fire":
@@ -660,8 +681,9 @@ func (circuitSuite) Gen(r *rand.Rand, i int) Case {
 	owidth := []int64{10, 100, 1000}[r.Intn(3)]
 	odur := int64(on) * owidth
 	sleep := []int64{1, 20, 200, 5000}[r.Intn(4)]
+	thrV := int64(1 + r.Intn(3))
 	hdr := fmt.Sprintf("circuit opener=%s closer=%s o_n=%d o_dur=%d o_pct=%d o_vol=%d thr=%d c_sleep=%d c_half=%d c_req=%d to=%d mc=%d fbmc=%d ii=%d iei=%s",
-		opener, closer, on, odur, 1+r.Intn(100), 1+r.Intn(4), 1+r.Intn(3), sleep, 1+r.Intn(3), 1+r.Intn(3), to, lim(), lim(), r.Intn(2)*r.Intn(2),
+		opener, closer, on, odur, 1+r.Intn(100), 1+r.Intn(4), thrV, sleep, 1+r.Intn(3), 1+r.Intn(3), to, lim(), lim(), r.Intn(2)*r.Intn(2),
 		pick(r, "unset", "unset", "always", "never", "canceled"))
 	pt := ""
 	if r.Intn(16) == 0 {
@@ -836,7 +858,14 @@ func (circuitSuite) Gen(r *rand.Rand, i int) Case {
 			c.Ops = append(c.Ops, strings.TrimSpace("setcfg "+strings.Join(parts, " ")))
 			tag("setcfg")
 		case x < 94:
-			if r.Intn(6) == 0 {
+			if r.Intn(4) == 0 && pt == "" {
+				k := 0
+				if opener == "consec" {
+					k = r.Intn(int(thrV)) // fewer failures than the sibling's own threshold: it never opens
+				}
+				c.Ops = append(c.Ops, fmt.Sprintf("sib %d", k))
+				tag("sibling-traffic")
+			} else if r.Intn(6) == 0 {
 				c.Ops = append(c.Ops, "rebuild")
 				tag("rebuild-with-new-clock")
 				armed = 0
